@@ -61,7 +61,7 @@ SUDOKU_COMBINATOR = Grid(OneOf(Spaces(0, "g"), HexInt()))
 
 def serialize_sudoku(problem):
     height = len(problem)
-    width = len(problem[0])
+    width = len(problem[0]) if height > 0 else 0
     return serialize_problem_as_url(SUDOKU_COMBINATOR, "sudoku", height, width, problem)
 
 
